@@ -6,6 +6,7 @@ package main
 import (
 	"encoding/json"
 	"fmt"
+	authtypes "github.com/cosmos/cosmos-sdk/x/auth/types"
 	"math/rand"
 	"sort"
 	"strings"
@@ -76,6 +77,7 @@ func (a *Actors) FundAll(r *Run, rich, mid, poor int64) {
 	}
 	r.Fund("stranger", a.Stranger, 1_000_000)
 	r.Fund("modconsumer", a.ModCons, mid)
+	r.Fund("govacc", authtypes.NewModuleAddress("gov"), 5000) // another module's own account, paying for its contexts
 	for i, p := range a.SignProv {
 		if i != 4 {
 			r.Fund(fmt.Sprintf("prov%d", i+1), p, 1000)
@@ -119,7 +121,8 @@ var malformedOutputs = []string{`{"body":{}}`, `[]`, `"x"`, `{"header":1}`, `{"h
 	`{"header":{},"body":"s"}`, `{"header":{},"body":1.5}`, `{"header":{},"body":false}`, `{"header":null,"body":{}}`}
 var goodOutputs = []string{goodOutput, `{"header":{}}`, `{"header":{"a":1},"body":{"b":[1,2]},"extra":true}`, `{"header":{},"body":{"x":"not-an-integer"}}`, `{"header":{},"body":{"x":1}}`, `{"header":{},"body":{"y":[]}}`,
 	`{"header":{},"body":{"n":1e400}}`, `{"header":{"k":` + strings.Repeat("9", 400) + `},"body":{}}`, `{"header":{},"body":{"f":-0.000000000000000000000000000000000001e-400}}`,
-	`{"header":{},"body":{"blob":"` + strings.Repeat("b", 5000) + `"}}`} // the last one is longer than the default tx_size_limit parameter, which limits nothing here
+	`{"header":{},"body":{"blob":"` + strings.Repeat("b", 5000) + `"}}`,
+	"{\"header\":{},\"body\":{}}\n", " \t{\"header\":{} ,\n \"body\":{}}"} // the last one is longer than the default tx_size_limit parameter, which limits nothing here
 
 func pick(rng *rand.Rand, n int) int { return rng.Intn(n) }
 
@@ -679,7 +682,61 @@ func (g *Gen) opWithdraw() {
 			prov = g.provider()
 		}
 	}
+	if prov == nil && g.rng.Intn(3) == 0 {
+		// "all my providers" with the provider field explicitly encoded as zero-length bytes
+		// (what amino JSON "provider":"" or a hand-built transaction gives): decodes to an
+		// empty, non-nil address
+		bz, err := types.NewMsgWithdrawEarnedFees(owner, nil).Marshal()
+		must(err)
+		g.r.MsgRaw(types.TypeMsgWithdrawEarnedFees, append(bz, 0x12, 0x00), "explicit empty provider field")
+		return
+	}
 	g.r.Msg(types.NewMsgWithdrawEarnedFees(owner, prov), note)
+}
+
+// opSwapped: binding messages whose provider and owner fields are filled the other way
+// round, signed by the provider account of a binding that belongs to another owner.
+func (g *Gen) opSwapped() {
+	s := g.r.pre
+	var cands []types.ServiceBinding
+	for _, bk := range sortedKeys(s.Bindings) {
+		b := s.Bindings[bk]
+		if len(b.Provider) == 20 && len(b.Owner) == 20 && !b.Provider.Equals(b.Owner) {
+			cands = append(cands, b)
+		}
+	}
+	if len(cands) == 0 {
+		return
+	}
+	b := cands[pick(g.rng, len(cands))]
+	note := "wrong-signer: provider and owner fields swapped"
+	switch g.rng.Intn(5) {
+	case 0:
+		g.r.Msg(types.NewMsgDisableServiceBinding(b.ServiceName, b.Owner, b.Provider), note)
+	case 1:
+		g.r.Msg(types.NewMsgEnableServiceBinding(b.ServiceName, b.Owner, nil, b.Provider), note)
+	case 2:
+		g.r.Msg(types.NewMsgRefundServiceDeposit(b.ServiceName, b.Owner, b.Provider), note)
+	case 3:
+		g.r.Msg(types.NewMsgUpdateServiceBinding(b.ServiceName, b.Owner, coins(1), "", 0, "{}", b.Provider), note)
+	case 4:
+		g.r.Msg(types.NewMsgWithdrawEarnedFees(b.Provider, b.Owner), note)
+	}
+}
+
+// opBankSend: ordinary bank transfers between the actors, and attempts to pay into the
+// module's own accounts (which the host's bank module blocks).
+func (g *Gen) opBankSend() {
+	from := g.A.All20[pick(g.rng, len(g.A.All20))]
+	var to sdk.AccAddress
+	note := ""
+	switch g.rng.Intn(4) {
+	case 0:
+		to, note = g.r.w.actors[[]string{"escrow", "deposits", "feecollector"}[g.rng.Intn(3)]], "transfer into a module account"
+	default:
+		to = g.A.All20[pick(g.rng, len(g.A.All20))]
+	}
+	g.r.Send(from, to, int64(1+g.rng.Intn(20)), note)
 }
 
 func (g *Gen) opBlock() {
@@ -718,6 +775,11 @@ func (g *Gen) opModCreate() {
 		Threshold: uint32(1 + g.rng.Intn(len(provs))), Module: verifModule}
 	if g.rng.Intn(3) == 0 {
 		op.Consumer = hexs(g.A.Consumers[2]) // the poor consumer
+	} else if g.rng.Intn(5) == 0 {
+		op.Consumer = hexs(authtypes.NewModuleAddress("gov")) // a module paying from its own module account
+	}
+	if g.rng.Intn(12) == 0 {
+		op.Op = "create2"
 	}
 	if op.Repeated {
 		op.Freq = uint64(timeout) + uint64(g.rng.Intn(3))
@@ -882,6 +944,8 @@ func (g *Gen) opInvalidShape() {
 			g.r.Msg(types.NewMsgUpdateRequestContext(unhex(id), nil, nil, 3, 2, 0, rc.Consumer), "invalid: frequency below timeout")
 			g.r.Msg(types.NewMsgUpdateRequestContext(unhex(id), nil, nil, 0, 0, -2, rc.Consumer), "invalid: total -2")
 			g.r.Msg(types.NewMsgUpdateRequestContext(unhex(id), []sdk.AccAddress{p0, p0}, nil, 0, 0, 0, rc.Consumer), "invalid: duplicate providers")
+			eleven := append(append([]sdk.AccAddress{}, g.A.SignProv[:4]...), g.A.OddProv[:7]...)
+			g.r.Msg(types.NewMsgUpdateRequestContext(unhex(id), eleven, nil, 0, 0, 0, rc.Consumer), "invalid: eleven providers in an update")
 		}
 	case 18:
 		if hasCtx && rc.Repeated {
@@ -987,7 +1051,7 @@ func (g *Gen) Step() {
 		{2, g.opDefine}, {5, func() { g.opBind(false) }}, {5, g.opUpdateBinding}, {3, g.opDisable}, {3, g.opEnable}, {3, g.opRefund},
 		{2, g.opSetWithdraw}, {10, g.opCall}, {18, g.opRespond}, {3, func() { g.opCtxControl(0) }}, {3, func() { g.opCtxControl(1) }},
 		{2, func() { g.opCtxControl(2) }}, {3, func() { g.opCtxControl(3) }}, {5, g.opWithdraw}, {24, g.opBlock},
-		{3, g.opModCreate}, {3, g.opModControl}, {3, g.opModSvcCall}, {1, g.opRestart}, {1, g.opParams}, {4, g.opInvalidShape},
+		{3, g.opModCreate}, {3, g.opModControl}, {3, g.opModSvcCall}, {1, g.opRestart}, {1, g.opParams}, {4, g.opInvalidShape}, {1, g.opSwapped}, {1, g.opBankSend},
 	}
 	tot := 0
 	for _, o := range ops {
